@@ -408,8 +408,10 @@ func genC15(c *Ctx) {
 	}
 
 	// ---- structured stream: all 1 <= t <= N <= 6 ----
+	rounds := c.Scale(1, 3)
 	for si, s := range sets {
-		for fam := 0; fam < c15NFam; fam++ {
+		for fam := 0; fam < c15NFam*rounds; fam++ {
+			fam := fam % c15NFam
 			for n := 1; n <= 6; n++ {
 				for t := 1; t <= n; t++ {
 					pts := c15Points(c, s, fam, n)
